@@ -8,7 +8,8 @@ from typing import Generic, Any
 
 from pymap.concurrent import Event
 from pymap.config import IMAPConfig
-from pymap.exceptions import MailboxNotFound, MailboxConflict, MailboxReadOnly
+from pymap.exceptions import MailboxNotFound, MailboxConflict, \
+    MailboxReadOnly, NotSupportedError
 from pymap.flags import FlagOp, SessionFlags, PermanentFlags
 from pymap.interfaces.filter import FilterSetInterface
 from pymap.interfaces.message import MessageT
@@ -132,6 +133,13 @@ class BaseSession(SessionInterface, Generic[MessageT]):
         snapshot = await mbx.snapshot()
         return snapshot, await self._load_updates(selected, mbx)
 
+    def _check_inbox_case(self, name: str) -> None:
+        first = name.split(self.mailbox_set.delimiter, 1)[0]
+        if first != 'INBOX' and first.isascii() and first.upper() == 'INBOX':
+            # the inferior names of INBOX are spelled INBOX/..., another
+            # case would be listed as a second INBOX
+            raise NotSupportedError('Invalid mailbox name.')
+
     def _new_name(self, name: str, *, strip: bool = False) -> str:
         delimiter = self.mailbox_set.delimiter
         if strip and name.endswith(delimiter) and name != delimiter:
@@ -140,6 +148,7 @@ class BaseSession(SessionInterface, Generic[MessageT]):
             name = name[:-len(delimiter)]
         if name.isascii() and name.upper() == 'INBOX':
             raise MailboxConflict(name)
+        self._check_inbox_case(name)
         return name
 
     async def create_mailbox(self, name: str,
@@ -164,6 +173,7 @@ class BaseSession(SessionInterface, Generic[MessageT]):
     async def rename_mailbox(self, before_name: str, after_name: str,
                              selected: SelectedMailbox | None = None) \
             -> SelectedMailbox | None:
+        after_name = self._new_name(after_name)
         try:
             await self.mailbox_set.rename_mailbox(before_name, after_name)
         except KeyError as exc:
@@ -181,6 +191,7 @@ class BaseSession(SessionInterface, Generic[MessageT]):
     async def subscribe(self, name: str,
                         selected: SelectedMailbox | None = None) \
             -> SelectedMailbox | None:
+        self._check_inbox_case(name)
         await self.mailbox_set.set_subscribed(name, True)
         return await self._load_updates(selected, None)
 
